@@ -60,20 +60,23 @@ def make_harness(cfg, tw):
     only_protos = cfg.get("only_protos", False)
     resub = cfg.get("resub", False)   # queries are copies of training samples (C04)
     N = n + nu + nq
+    ids = cfg.get("ids")      # supervised only: position i stands for row ids[i] of a larger table (Node.idx != position)
     sup = tw.mod("opfython.models.supervised")
     semi_mod = tw.mod("opfython.models.semi_supervised")
     core_mod = tw.mod("opfython.core")
 
     def harness():
         eng = core.engine()
-        W = models.sym_matrix(eng, N, symmetric=True, diag="zero" if zero_diag else "free",
-                              distinct=distinct, positive=cfg.get("positive", False))
+        Wfull = models.sym_matrix(eng, (max(ids) + 1) if ids else N, symmetric=True, diag="zero" if zero_diag else "free",
+                                  distinct=distinct, positive=cfg.get("positive", False))
+        # W is always indexed by position; the model reads the table through the sample identifiers
+        W = [[Wfull[ids[i]][ids[j]] for j in range(N)] for i in range(N)] if ids else Wfull
         labels = models.sym_labels(eng, n, K, two_classes=False)
         assume_partition(eng, labels, part)
         cls = semi_mod.SemiSupervisedOPF if semi else sup.SupervisedOPF
-        opf = models.build_opf(cls, branch, W)
-        X, Y, I = models.data_for(branch, n, labels)
-        out = dict(W=W, labels=labels, opf=opf)
+        opf = models.build_opf(cls, branch, Wfull)
+        X, Y, I = models.data_for(branch, n, labels, idx=ids[:n] if ids else None)
+        out = dict(W=W, Wfull=Wfull, labels=labels, opf=opf)
         if only_protos:
             opf.subgraph = core_mod.Subgraph(X, Y, I=I)
             opf._find_prototypes()
@@ -89,9 +92,9 @@ def make_harness(cfg, tw):
             out["snap"] = dict(cost=[nd.cost for nd in g.nodes], plabel=[nd.predicted_label for nd in g.nodes],
                                pred=[nd.pred for nd in g.nodes], order=list(g.idx_nodes))
             if resub:
-                Xq, _, Iq = models.data_for(branch, n, None, offset=0)
+                Xq, _, Iq = models.data_for(branch, n, None, offset=0, idx=ids[:n] if ids else None)
             else:
-                Xq, _, Iq = models.data_for(branch, nq, None, offset=n + nu)
+                Xq, _, Iq = models.data_for(branch, nq, None, offset=n + nu, idx=ids[n + nu:] if ids else None)
             out["preds"] = opf.predict(Xq, Iq)
         return out
     return harness
@@ -108,7 +111,7 @@ def observables(out):
 
 def payload(eng, m, cfg, out):
     """concrete input (for the real package) from a model of the path condition"""
-    Wv = models.eval_matrix(eng, m, out["W"])
+    Wv = models.eval_matrix(eng, m, out.get("Wfull", out["W"]))
     Wf = models.floats_of(Wv)
     if Wf is None:
         return None
